@@ -16,7 +16,9 @@ import (
 
 // C09 — concurrent and repeated use: seeded schedules x histories, oracles O-iso and O-race.
 
-func init() { register(&profile{id: "C09", num: 9, name: "concurrency", run: runConcurrency}) }
+func init() {
+	register(&profile{warm: warmConc, id: "C09", num: 9, name: "concurrency", run: runConcurrency})
+}
 
 type sharedParser struct {
 	w       *world
@@ -54,7 +56,7 @@ type mailbox struct {
 	errs []error
 }
 
-var strategyNames = []string{"sequential", "random-walk", "park-at-hot-site", "pct"}
+var strategyNames = []string{"sequential", "random-walk", "park-at-hot-site", "pct", "park-at-sync-call"}
 
 func execParserOp(op *concOp, p PH, w *world, mb *mailbox, reference bool) string {
 	const name = "conc.txt"
@@ -293,17 +295,29 @@ var parserOpKinds = []string{"ParseString", "ParseBytes", "Parse", "ParseFromLex
 var defOpKinds = []string{"Def.Lex", "Def.LexString", "Def.LexBytes", "Def.Symbols", "Def.Rules", "Def.MarshalJSON", "SymbolsByRune", "Def.LexString", "Def.LexString", "Def.LexFailingReader", "MakeSymbolTable"}
 
 func runConcurrency(rc *RunCtx) *Violation {
-	capAbort = false
+	capAbort.Store(false)
 	delims := runDelims(rc.seed)
 	simrt.ShuffleMaps = true
 	// ---- shared objects, built before any task exists --------------------------------------
 	var parsers []*sharedParser
 	var defs []*sharedDef
 	np := 1 + simrt.Choose(2)
+	// sync focus: one parser whose parses were seen (in the warm-up, on this very tree) to call
+	// methods of sync / sync/atomic values, tasks restricted to the documents that do so, and the
+	// schedule that parks exactly there
+	var syncWorld *world
+	if simrt.Choose(6) == 1 && len(syncProf.worlds) > 0 {
+		syncWorld = syncProf.worlds[simrt.Choose(len(syncProf.worlds))]
+		np = 1
+		rc.probe("sync focus: world and documents that execute sync/atomic calls, parks at those calls")
+	}
 	for i := 0; i < np; i++ {
 		w := pickAnyParser()
 		if i == 0 && simrt.Choose(2) == 1 {
 			w = worldHeredoc // the one definition with a cache written during lexing
+		}
+		if syncWorld != nil {
+			w = syncWorld
 		}
 		o, variant := drawBuild(w)
 		var p PH
@@ -314,6 +328,9 @@ func runConcurrency(rc *RunCtx) *Violation {
 		rc.agg.Worlds[w.name]++
 	}
 	nd := simrt.Choose(3)
+	if syncWorld != nil {
+		nd = 0
+	}
 	genAndRuntime := map[string]int{}
 	for i := 0; i < nd; i++ {
 		ld := lexDefs[simrt.Choose(len(lexDefs))]
@@ -335,7 +352,7 @@ func runConcurrency(rc *RunCtx) *Violation {
 			rc.probe("generated and runtime lexer of the same rules shared in one run")
 		}
 	}
-	useEbnf := simrt.Choose(3) == 1
+	useEbnf := simrt.Choose(3) == 1 && syncWorld == nil
 	var grammars []string
 	if useEbnf {
 		for _, sp := range parsers {
@@ -349,7 +366,7 @@ func runConcurrency(rc *RunCtx) *Violation {
 	}
 	simrt.ShuffleMaps = simrt.Choose(2) == 1
 	mb := &mailbox{}
-	withFaults := simrt.Choose(2) == 1
+	withFaults := simrt.Choose(2) == 1 && syncWorld == nil
 	// long history: a long-lived process has pushed hundreds of distinct keys through the shared
 	// back-reference cache before the concurrent phase, and keeps adding new ones during it
 	churn := 0
@@ -369,7 +386,14 @@ func runConcurrency(rc *RunCtx) *Violation {
 			}
 		}
 	}
-	deepRun := simrt.Choose(16) == 1
+	if syncWorld != nil {
+		focusDocs[0] = nil
+		ds := syncProf.docs[syncWorld.name]
+		for k := 0; k < 3; k++ {
+			focusDocs[0] = append(focusDocs[0], ds[simrt.Choose(len(ds))])
+		}
+	}
+	deepRun := simrt.Choose(16) == 1 && syncWorld == nil
 	if deepRun {
 		rc.probe("all tasks parse deeply nested input (350-500 levels) concurrently")
 	}
@@ -556,12 +580,16 @@ func runConcurrency(rc *RunCtx) *Violation {
 	cfg := simrt.Config{Strategy: simrt.Choose(simrt.NumStrategies), MaxYields: 3000000}
 	cfg.GapScale = []int{4, 16, 64, 256, 1024, 4096}[simrt.Choose(6)]
 	cfg.ParkDen = []int{2, 4, 8, 16, 64}[simrt.Choose(5)]
+	cfg.SyncResumeAny = simrt.Choose(2) == 1
 	cfg.PCTDepth = 1 + simrt.Choose(3)
 	cfg.PCTLen = []int{1000, 10000, 100000}[simrt.Choose(3)]
 	if deepRun {
 		// keep all tasks advancing together so that they are deep at the same time
 		cfg.Strategy = simrt.StratWalk
 		cfg.GapScale = []int{256, 1024, 4096}[simrt.Choose(3)]
+	}
+	if syncWorld != nil {
+		cfg.Strategy = simrt.StratSyncPark
 	}
 	stratName := ""
 	if schedTarget != nil {
@@ -724,7 +752,7 @@ func runConcurrency(rc *RunCtx) *Violation {
 	for _, op := range readbackRefs {
 		refs[op.key] = exec(op, true)
 	}
-	capAbort = false
+	capAbort.Store(false)
 	const cutOff = "panic: step cap exceeded"
 	for _, r := range results {
 		ref := refs[r.op.key]
@@ -834,4 +862,45 @@ func sitesOf(loc string) []int32 {
 	var line int
 	fmt.Sscanf(loc[i+1:], "%d", &line)
 	return simrt.SitesAt(loc[:i], line)
+}
+
+// syncProf lists, for the tree under test, the worlds and documents whose parses execute at least
+// one statement that calls a method of a sync or sync/atomic value (the code's own declared shared
+// words).  It is computed once per process before the first run, with the choice tape off, from
+// the code alone, so a replay in a fresh process computes the same lists.
+var syncProf struct {
+	worlds []*world
+	docs   map[string][]string
+}
+
+func warmConc() {
+	syncProf.docs = map[string][]string{}
+	fixed := [3]string{"WARMa", "WARMb", "WARMc"}
+	for _, list := range [][]*world{coreWorlds, miniWorlds, exampleWorlds, exampleWorlds2} {
+		for _, w := range list {
+			if w.verbatim || backtrackingWorlds[w.name] {
+				continue
+			}
+			var p PH
+			if catch(func() { p = w.build(buildOpts{}) }) != "" {
+				continue
+			}
+			for _, d := range w.docs {
+				x := instantiate(d.text, fixed)
+				before := simrt.SyncSiteHits
+				simrt.RunInline(func() {
+					simrt.OpBegin(2000000)
+					call(func() (interface{}, error) { return p.ParseString("warm", x) })
+					simrt.OpEnd(0)
+				})
+				if simrt.SyncSiteHits > before {
+					syncProf.docs[w.name] = append(syncProf.docs[w.name], d.text)
+				}
+			}
+			if len(syncProf.docs[w.name]) > 0 {
+				syncProf.worlds = append(syncProf.worlds, w)
+			}
+		}
+	}
+	capAbort.Store(false)
 }
